@@ -17,15 +17,17 @@ use std::{
 
 use compio_buf::BufResult;
 use compio_driver::{
-    verif::{set_sink, Event},
+    verif::{set_sink, Event, SubmitPath},
     DriverType, ProactorBuilder,
 };
 use std::sync::atomic::{AtomicI64, Ordering};
 
 /// operation storages currently alive in the driver (hook events; one case at a time per process)
 static LIVE_OPS: AtomicI64 = AtomicI64::new(0);
+static HOOKS: std::sync::Mutex<Vec<Event>> = std::sync::Mutex::new(Vec::new());
 
 fn sink(e: Event) {
+    HOOKS.lock().unwrap_or_else(|p| p.into_inner()).push(e);
     match e {
         Event::OpAlloc { .. } => {
             LIVE_OPS.fetch_add(1, Ordering::SeqCst);
@@ -59,6 +61,8 @@ pub enum Route {
 pub enum What {
     Read,
     Accept,
+    /// `spawn_blocking` of a job that waits for the lab's gate (thread-pool operation)
+    Blocking,
 }
 
 #[derive(Debug, Clone, Serialize, Deserialize)]
@@ -83,6 +87,10 @@ pub enum RStep {
     FireDrop(u8),
     /// run the scheduled tasks, then poll the driver (0 or up to 20 ms)
     Step { block: bool },
+    /// drop the JoinHandle of task #i (cancels the task, its future is dropped by the next run)
+    DropHandle(u8),
+    /// drop the whole runtime with whatever is in flight (C01 part only)
+    DropRuntime,
 }
 
 #[derive(Debug, Clone, Serialize, Deserialize)]
@@ -135,7 +143,7 @@ enum OpEnd {
 }
 
 struct Lab {
-    rt: Runtime,
+    rt: Option<Runtime>,
     ends: Vec<Rc<OpEnd>>,
     peers: Vec<Option<Peer>>,
     fed: Vec<Vec<u8>>,
@@ -153,6 +161,7 @@ struct Lab {
     stepped_since_spawn: Vec<bool>,
     spawn_time: Vec<Option<Instant>>,
     personality: u16,
+    gate: std::sync::Arc<std::sync::atomic::AtomicBool>,
 }
 
 fn build(case: &RtCase) -> std::io::Result<Lab> {
@@ -189,8 +198,9 @@ fn build(case: &RtCase) -> std::io::Result<Lab> {
     let personality = if case.iour { rt.register_personality().unwrap_or(0) } else { 0 };
     let n = case.tasks.len();
     Ok(Lab {
+        gate: std::sync::Arc::new(std::sync::atomic::AtomicBool::new(false)),
         personality,
-        rt,
+        rt: Some(rt),
         ends,
         peers,
         fed: vec![vec![]; 3],
@@ -211,6 +221,10 @@ fn build(case: &RtCase) -> std::io::Result<Lab> {
 }
 
 impl Lab {
+    fn rt(&self) -> &Runtime {
+        self.rt.as_ref().expect("runtime alive")
+    }
+
     fn spawn(&mut self, ix: usize, spec: &TaskSpec) {
         let results = self.results.clone();
         let route = spec.route;
@@ -228,6 +242,7 @@ impl Lab {
         let personality = self.personality;
         let end = self.ends[mono_ix(spec.stream, 3)].clone();
         let listener = self.listener.clone();
+        let gate = self.gate.clone();
         let fut = async move {
             // the operation itself, as a boxed future producing an `Out`
             let op = async move {
@@ -250,6 +265,21 @@ impl Lab {
                         Err(e) if e.is_cancelled() => Out::Cancelled,
                         Err(e) => Out::Failed(format!("{:?}", e.kind())),
                     },
+                    What::Blocking => {
+                        let g = gate.clone();
+                        let r = compio_runtime::spawn_blocking(move || {
+                            let t0 = Instant::now();
+                            while !g.load(Ordering::SeqCst) && t0.elapsed() < Duration::from_secs(20) {
+                                std::thread::sleep(Duration::from_micros(200));
+                            }
+                            7usize
+                        })
+                        .await;
+                        match r {
+                            Ok(7) => Out::Eof,
+                            _ => Out::Failed("blocking job".into()),
+                        }
+                    }
                 }
             };
             let out = match route {
@@ -273,24 +303,24 @@ impl Lab {
             };
             results.borrow_mut()[ix] = Some(out);
         };
-        let h = self.rt.enter(|| self.rt.spawn(fut));
+        let h = self.rt().enter(|| self.rt().spawn(fut));
         self.handles[ix] = Some(h);
         self.spawned[ix] = true;
         self.spawn_time[ix] = Some(Instant::now());
     }
 
     fn step(&mut self, timeout: Duration) {
-        self.rt.enter(|| {
-            self.rt.run();
+        self.rt().enter(|| {
+            self.rt().run();
         });
         // never sleep past the nearest timer
-        let t = match self.rt.current_timeout() {
+        let t = match self.rt().current_timeout() {
             Some(d) => d.min(timeout),
             None => timeout,
         };
-        self.rt.poll_with(Some(t));
-        self.rt.enter(|| {
-            self.rt.run();
+        self.rt().poll_with(Some(t));
+        self.rt().enter(|| {
+            self.rt().run();
         });
         for i in 0..self.spawned.len() {
             if self.spawned[i] {
@@ -339,6 +369,7 @@ fn is_cancel_route_fired(lab: &Lab, spec: &TaskSpec, i: usize) -> Option<&'stati
 
 fn run(case: &RtCase) -> Outcome {
     LIVE_OPS.store(0, Ordering::SeqCst);
+    HOOKS.lock().unwrap_or_else(|p| p.into_inner()).clear();
     let mut lab = match build(case) {
         Ok(l) => l,
         Err(e) => return Outcome::inconclusive(format!("setup: {e}")),
@@ -376,7 +407,7 @@ fn run(case: &RtCase) -> Outcome {
                     labels.push("token-cancel-twice".into());
                 }
                 let tok = lab.tokens[t].clone();
-                lab.rt.enter(|| tok.cancel());
+                lab.rt().enter(|| tok.cancel());
                 lab.token_fired[t] = true;
             }
             RStep::FireDrop(s) => {
@@ -393,6 +424,7 @@ fn run(case: &RtCase) -> Outcome {
                 }
             }
             RStep::Step { block } => lab.step(Duration::from_millis(if block { 20 } else { 0 })),
+            RStep::DropHandle(_) | RStep::DropRuntime => {}
         }
     }
     // spawn whatever is left so that every task is judged
@@ -579,6 +611,222 @@ fn run(case: &RtCase) -> Outcome {
     Outcome::pass_owned(nontrivial, labels)
 }
 
+const F_MORE: u32 = 2;
+
+/// C01 over the raw hook trace: storage of an operation is released only after the kernel's final
+/// completion (or the ring is closed) resp. after the pool job is done, exactly once, and no
+/// completion arrives for released storage.
+fn check_hook_lifetimes(ev: &[Event], drv: &str) -> Result<(), Outcome> {
+    use std::collections::HashMap;
+    #[derive(Default)]
+    struct S {
+        alive: bool,
+        iour: bool,
+        final_cqe: bool,
+        blocking: bool,
+        pool_done: bool,
+    }
+    let mut st: HashMap<usize, S> = HashMap::new();
+    let mut ring_closed = false;
+    let (mut allocs, mut frees) = (0usize, 0usize);
+    let v = |cat: &str, d: String| Err(Outcome::violation(format!("C01/rt/{cat}/{drv}"), d));
+    for (pos, e) in ev.iter().enumerate() {
+        match *e {
+            Event::OpAlloc { id } => {
+                allocs += 1;
+                st.insert(id, S { alive: true, ..Default::default() });
+            }
+            Event::Submit { id, path } => {
+                let s = st.entry(id).or_default();
+                match path {
+                    SubmitPath::Iour => {
+                        s.iour = true;
+                        s.final_cqe = false;
+                    }
+                    SubmitPath::Blocking => {
+                        s.blocking = true;
+                        s.pool_done = false;
+                    }
+                    SubmitPath::PollWait => {}
+                }
+            }
+            Event::Cqe { user_data, flags, res } => {
+                if user_data >= u64::MAX - 1 {
+                    continue;
+                }
+                match st.get_mut(&(user_data as usize)) {
+                    Some(s) if s.alive => {
+                        if flags & F_MORE == 0 {
+                            s.final_cqe = true;
+                        }
+                    }
+                    _ => return v("cqe-after-free", format!("hook[{pos}]: completion (res {res}, flags {flags:#x}) for operation storage {user_data:#x} that was already released")),
+                }
+            }
+            Event::PoolDone { id } => {
+                if let Some(s) = st.get_mut(&id) {
+                    s.pool_done = true;
+                }
+            }
+            Event::RingClosed => ring_closed = true,
+            Event::OpFree { id } => {
+                frees += 1;
+                let Some(s) = st.get_mut(&id) else { continue };
+                if !s.alive {
+                    return v("double-free", format!("hook[{pos}]: operation storage {id:#x} released twice"));
+                }
+                if s.iour && !s.final_cqe && !ring_closed {
+                    return v("freed-before-final-cqe", format!("hook[{pos}]: operation storage {id:#x} released while the kernel still owns the request"));
+                }
+                if s.blocking && !s.pool_done {
+                    return v("freed-before-pool-done", format!("hook[{pos}]: operation storage {id:#x} released while its thread-pool job was still running"));
+                }
+                s.alive = false;
+            }
+        }
+    }
+    if allocs != frees {
+        return v("leaked-op", format!("{allocs} operation storages allocated, {frees} released after the runtime and every task were dropped"));
+    }
+    Ok(())
+}
+
+/// C01 part "rt": the same tasks, but judged only by the lifetime oracle; futures, tasks (JoinHandle
+/// drop), tokens and the whole runtime are dropped with operations in flight, and the awaited events
+/// are supplied afterwards.
+fn run_c01(case: &RtCase) -> Outcome {
+    LIVE_OPS.store(0, Ordering::SeqCst);
+    HOOKS.lock().unwrap_or_else(|p| p.into_inner()).clear();
+    let mut lab = match build(case) {
+        Ok(l) => l,
+        Err(e) => return Outcome::inconclusive(format!("setup: {e}")),
+    };
+    let drv = if case.iour { "iour" } else { "poll" };
+    let mut labels: Vec<String> = vec![format!("drv:{drv}")];
+    let mut nontrivial = false;
+    let mut next = 0usize;
+    for st in &case.steps {
+        if lab.rt.is_none() {
+            match *st {
+                RStep::Feed { stream, n } => lab.feed(mono_ix(stream, 3), mono_range(n, 1, 64)),
+                RStep::Connect => lab.connect(),
+                _ => {}
+            }
+            continue;
+        }
+        let in_flight = LIVE_OPS.load(Ordering::SeqCst) > 0;
+        match *st {
+            RStep::Spawn => {
+                if next < case.tasks.len() {
+                    lab.spawn(next, &case.tasks[next]);
+                    next += 1;
+                }
+            }
+            RStep::Feed { stream, n } => lab.feed(mono_ix(stream, 3), mono_range(n, 1, 64)),
+            RStep::Connect => lab.connect(),
+            RStep::CancelToken(t) => {
+                let tok = lab.tokens[t as usize % NTOK].clone();
+                lab.rt().enter(|| tok.cancel());
+                lab.token_fired[t as usize % NTOK] = true;
+                if in_flight {
+                    labels.push("token-cancel-in-flight".into());
+                    nontrivial = true;
+                }
+            }
+            RStep::FireDrop(s) => {
+                if let Some(tx) = lab.sig_tx[s as usize % NSIG].take() {
+                    let _ = tx.send(());
+                    if in_flight {
+                        labels.push("future-drop-in-flight".into());
+                        nontrivial = true;
+                    }
+                }
+            }
+            RStep::Step { block } => lab.step(Duration::from_millis(if block { 20 } else { 0 })),
+            RStep::DropHandle(i) => {
+                if next > 0 {
+                    let i = i as usize % next;
+                    if lab.handles[i].take().is_some() && in_flight {
+                        labels.push("task-cancel-in-flight".into());
+                        nontrivial = true;
+                    }
+                }
+            }
+            RStep::DropRuntime => {
+                if in_flight {
+                    labels.push("runtime-drop-in-flight".into());
+                    nontrivial = true;
+                }
+                lab.handles.iter_mut().for_each(|h| {
+                    // detach: dropping a handle after the runtime is gone must be harmless as well, keep half of them
+                    if let Some(h) = h.take() {
+                        std::mem::forget(h.detach());
+                    }
+                });
+                lab.rt = None;
+            }
+        }
+    }
+    // supply every awaited event after the drops: a late kernel or pool write must not hit released memory
+    for s in 0..3 {
+        lab.feed(s, 64);
+        lab.peers[s] = None;
+    }
+    lab.connect();
+    lab.gate.store(true, Ordering::SeqCst);
+    if lab.rt.is_some() {
+        for round in 0..40 {
+            if (0..next).all(|i| lab.done(i) || lab.handles[i].is_none()) && LIVE_OPS.load(Ordering::SeqCst) == 0 {
+                break;
+            }
+            lab.step(Duration::from_millis(if round < 2 { 0 } else { 20 }));
+        }
+    }
+    // wait for thread-pool jobs (PoolDone for every Blocking submit), then drop everything
+    let t0 = Instant::now();
+    loop {
+        let ev = HOOKS.lock().unwrap_or_else(|p| p.into_inner()).clone();
+        let open = ev.iter().filter(|e| matches!(e, Event::Submit { path: SubmitPath::Blocking, .. })).count() as i64 - ev.iter().filter(|e| matches!(e, Event::PoolDone { .. })).count() as i64;
+        if open <= 0 {
+            break;
+        }
+        if t0.elapsed() > Duration::from_secs(30) {
+            return Outcome::inconclusive("thread-pool job did not finish within 30 s");
+        }
+        std::thread::sleep(Duration::from_millis(1));
+    }
+    lab.handles.clear();
+    lab.rt = None;
+    drop(lab);
+    let t0 = Instant::now();
+    while LIVE_OPS.load(Ordering::SeqCst) != 0 && t0.elapsed() < Duration::from_secs(2) {
+        std::thread::sleep(Duration::from_millis(1)); // a pool thread may still be dropping its entry
+    }
+    let ev = HOOKS.lock().unwrap_or_else(|p| p.into_inner()).clone();
+    if let Err(o) = check_hook_lifetimes(&ev, drv) {
+        return o;
+    }
+    labels.sort();
+    labels.dedup();
+    Outcome::pass_owned(nontrivial, labels)
+}
+
+fn strategy_c01() -> impl Strategy<Value = RtCase> + Clone {
+    let route = prop_oneof![3 => Just(Route::Plain), 3 => (0u8..2).prop_map(Route::Token), 1 => any::<u8>().prop_map(Route::TimeoutMs), 3 => (0u8..2).prop_map(Route::DropOn)];
+    let task = (prop_oneof![5 => Just(What::Read), 2 => Just(What::Accept), 2 => Just(What::Blocking)], any::<u16>(), any::<u16>(), route, 0u8..3).prop_map(|(what, stream, cap, route, pers)| TaskSpec { what, stream, cap, route, pers });
+    let step = prop_oneof![
+        6 => Just(RStep::Spawn),
+        3 => (any::<u16>(), any::<u16>()).prop_map(|(stream, n)| RStep::Feed { stream, n }),
+        1 => Just(RStep::Connect),
+        2 => (0u8..2).prop_map(RStep::CancelToken),
+        2 => (0u8..2).prop_map(RStep::FireDrop),
+        5 => any::<bool>().prop_map(|block| RStep::Step { block }),
+        2 => any::<u8>().prop_map(RStep::DropHandle),
+        1 => Just(RStep::DropRuntime),
+    ];
+    (any::<bool>(), 0u8..4, 0u8..3, vec(task, 1..=6), vec(step, 0..24)).prop_map(|(iour, cap_ix, interval_ix, tasks, steps)| RtCase { iour, cap_ix, interval_ix, tasks, steps })
+}
+
 fn strategy() -> impl Strategy<Value = RtCase> + Clone {
     let route = prop_oneof![3 => Just(Route::Plain), 4 => (0u8..2).prop_map(Route::Token), 2 => any::<u8>().prop_map(Route::TimeoutMs), 3 => (0u8..2).prop_map(Route::DropOn)];
     let task = (prop_oneof![4 => Just(What::Read), 1 => Just(What::Accept)], any::<u16>(), any::<u16>(), route, prop_oneof![3 => Just(0u8), 1 => Just(1u8), 1 => Just(2u8)]).prop_map(|(what, stream, cap, route, pers)| TaskSpec { what, stream, cap, route, pers });
@@ -596,6 +844,24 @@ fn strategy() -> impl Strategy<Value = RtCase> + Clone {
 fn main() {
     set_sink(Some(sink));
     let mut s = Session::new();
+    if s.args.rest.first().map(|x| x == "C01").unwrap_or(false) {
+        let mut p = Part::new(
+            "C01",
+            "rt",
+            "case = driver x capacity x event_interval x 1-6 tasks on a harness-stepped runtime (socket read, accept, spawn_blocking job on a \
+             gate) through routes {none, with_cancel, timeout, future dropped on a signal} x <=24 steps {spawn, feed, connect, cancel token, fire \
+             drop signal, run+poll, drop a JoinHandle, drop the whole runtime}; afterwards every awaited event is supplied. Judged by the \
+             lifetime invariant over the compio_verif hook trace. Non-trivial = a token cancel / future drop / task cancel / runtime drop \
+             happened while an operation was alive in the driver; distinct = serialised case.",
+        );
+        p.quick_cases = 1200;
+        p.thorough_cases = 30_000;
+        p.max_shrink_iters = 150;
+        p.crash_guard = true;
+        p.assumptions = vec!["drop points are the harness steps (between runtime ticks / polls), not arbitrary instructions"];
+        s.run_part(p, strategy_c01(), run_c01);
+        s.finish();
+    }
     let mut p = Part::new(
         "C05",
         "rt",
